@@ -14,7 +14,9 @@ CONSTANTS MaxDepth,     \* number of operators applied on top of a base table
           MaxRows2,     \* rows of base table t2
           NVals,        \* numeric values 1..NVals (plus "" if WithEmpty)
           WithEmpty,
-          DevNoDedup    \* deviation for anti-vacuity: project keeps duplicates (as a bag would)
+          DevNoDedup,   \* deviation for anti-vacuity: project keeps duplicates (as a bag would)
+          DevSharedPrefix, \* deviation: exploded index prefixes share storage (Relational.tla Explode)
+          DevStreamInsert  \* deviation: an insert query writes while its source is still being read
 
 VARIABLES db, q, depth, cur
 
@@ -152,6 +154,33 @@ LawRenameExtend ==
           /\ D(Remove(Extend(q, "x", Const(VNum(1))), {"x"})) = D(q)
           /\ D(Where(Extend(q, "x", Const(VNum(1))), [k |-> "cmp", o |-> "is", a |-> Col("x"), b |-> Const(VNum(1))]))
                = D(Extend(q, "x", Const(VNum(1))))
+
+
+\* reading a composite index once per exploded prefix = the where with the conjunction of the
+\* per-column in-lists, each row ONCE (index over all columns of q, every choice of values)
+AltSeqs == {SetToSeq(X) : X \in (SUBSET Vals) \ {{}}}
+LawIndexSpans ==
+    LET ic == SetToSeq(C(q))
+        n == Len(ic)
+    IN \A alts \in [1..n -> AltSeqs] :
+         LET reads == IndexReads(D(q), ic, alts, DevSharedPrefix)
+             cond == [k |-> "and", es |-> [i \in 1..n |->
+                          [k |-> "in", a |-> Col(ic[i]), vs |-> alts[i]]]]
+             want == D(Where(q, cond))
+         IN /\ UNION {reads[k] : k \in 1..Len(reads)} = want
+            /\ SumCard(reads) = Cardinality(want)
+
+\* `insert (q rename c to z extend c = z + d remove z) into t` for a base table t = q: the new
+\* table is the old one plus one shifted row per OLD row, the count is the number of old rows
+LawInsertQuery ==
+    q.op = "table" =>
+      \A c \in C(q) : \A d \in {1, NVals} :
+        LET T == D(q)
+            Shift(r) == [r EXCEPT ![c] = VNum(r[c][2] + d)]
+            res == ScanInsert(T, T, 0, c, Shift, ~DevStreamInsert, 20)
+        IN (\A r \in T : r[c][1] = 2) =>
+              /\ res.rows = T \cup {Shift(r) : r \in T}
+              /\ res.n = Cardinality(T)
 
 -----------------------------------------------------------------------------
 (* Cursor machine (C23) explored on its own: sequences of Rewind/Next/Prev   *)
